@@ -30,9 +30,12 @@ def base_dups(v=0):
   class Linear next to function linear, same-named classmethods)."""
   from vt import dup1, dup2
   LOG.append(('base_dups', v))
-  return fdl.Config(kinds.node, a=fdl.Config(dup1.same, x=v), b=fdl.Config(dup2.same, x=[v, 1]),
-                    c=[fdl.Config(kinds.Linear, x=1), fdl.Config(kinds.linear, x=2),
-                       fdl.Config(dup1.Thing), fdl.Config(dup2.Thing)])
+  empty_list, empty_dict = [], {}       # shared EMPTY containers (falsy, but objects all the same)
+  return fdl.Config(kinds.node, a=fdl.Config(dup1.same, x=v, y=empty_list),
+                    b=fdl.Config(dup2.same, x=[v, 1], y=empty_dict),
+                    c=[fdl.Config(kinds.Linear, x=1, y=empty_list), fdl.Config(kinds.linear, x=2, y=empty_dict),
+                       fdl.Config(dup1.Thing), fdl.Config(dup2.Thing)],
+                    extra_e=empty_list)
 
 
 def base2():
